@@ -1,6 +1,6 @@
 #!/usr/bin/env python3
 """author a mutant patch:  mkmut.py <name> "<breaks>" "<note>" <repo-relative file> <<< 'OLD\n=====\nNEW'
-(several edits to one file: separate blocks with a line '#####')"""
+(several edits to one file: separate blocks with a line '#####'; a block may start with '@@occurrence N' to pick the N-th match)"""
 import difflib, sys
 from pathlib import Path
 name, breaks, note, rel = sys.argv[1:5]
@@ -9,9 +9,16 @@ text = src.read_text()
 new = text
 for block in sys.stdin.read().split("\n#####\n"):
     old_s, new_s = block.split("\n=====\n")
+    occ = 1
+    if old_s.startswith("@@occurrence"):
+        head, old_s = old_s.split("\n", 1)
+        occ = int(head.split()[1])
     old_s = old_s.strip("\n"); new_s = new_s.strip("\n")
-    assert new.count(old_s) >= 1, f"old text not found: {old_s[:80]!r}"
-    new = new.replace(old_s, new_s, 1)
+    assert new.count(old_s) >= occ, f"old text not found {occ} times: {old_s[:80]!r}"
+    pos = -1
+    for _ in range(occ):
+        pos = new.index(old_s, pos + 1)
+    new = new[:pos] + new_s + new[pos + len(old_s):]
 diff = "".join(difflib.unified_diff(text.splitlines(True), new.splitlines(True), "a/" + rel, "b/" + rel))
 out = Path(__file__).resolve().parent / "mutants" / f"{name}.diff"
 out.write_text(f"# breaks: {breaks}\n# note: {note}\n" + diff)
